@@ -1464,6 +1464,10 @@ def contains(it, container, x):
         return zor(*[equal(it, x, y) for y in items])
     if isinstance(container, DictView):
         return contains(it, container.items(), x)
+    if isinstance(container, SV) and isinstance(container.ty, TOpaque):
+        h = getattr(it, "opaque_contains", {}).get(container.ty.name)
+        if h is not None:
+            return h(it, container, x)
     if isinstance(container, str):
         if isinstance(x, str):
             return x in container
